@@ -677,7 +677,8 @@ class C14(Spec):
                   "asynchronous sources interleave at every step): per-source order / exactly once, union at the end, ends iff all sources ended, "
                   "exception keeps the others and is rethrown last, argument routing, destructor drain waits for every in-flight source — for every "
                   "number of sources, every script (finite or infinite) and every operation list; the model is tied to the headers by running both on "
-                  "generated cases (0-5 scripted sources, sync/iterator/future/coroutine access, completions from the consumer thread or a second "
+                  "generated cases (0-5 scripted sources, sync/iterator/future/coroutine access from plain code and from inside one long-running consumer "
+                  "coroutine (active coro_queue, blocking and co_await styles mixed), completions from the consumer thread or a second "
                   "thread, early destruction with in-flight sources under ASan/LSan) and diffing every line; property oracles run on the implementation trace")
     level_note = ("trusted: Lean kernel (axioms propext/Classical.choice/Quot.sound at most), the hand-written model, the differential harness "
                   "(sampling), queue.h / generator.h / future layer (C09/C13/C01). Thread interleavings are covered by the theorems (any interleaving of "
